@@ -496,5 +496,138 @@ EXTRA_EXTRACTORS.append(dtype_tables)
 EXTRA_RENDERERS.append(render_dtypes)
 
 
+
+
+# --------------------------------------------------------------------------- import hook facts (C10 / C11 / C18)
+
+
+def hook_facts(facts):
+    tree = parse("_import_hook.py")
+    h = {
+        "defDecorator": "unknown", "classDecorator": "unknown", "copiesLocation": False, "importRule": "unknown", "visitors": [],
+        "shouldInstrument": "unknown", "insertsAtFront": False, "uninstallRemoves": False, "onlySourceLoaders": False,
+        "patchScope": "unknown", "tagHasChecker": False, "tagVersion": 0,
+    }
+    facts["hook"] = h
+    tr = find_def(tree, "JaxtypingTransformer")
+    if tr is not None:
+        h["visitors"] = sorted(n.name for n in tr.body if isinstance(n, ast.FunctionDef) and n.name.startswith("visit_"))
+
+        def deco_rule(fn):
+            if fn is None:
+                return "unknown", False
+            rule = "unknown"
+            for c in ast.walk(fn):
+                if isinstance(c, ast.Call) and isinstance(c.func, ast.Attribute) and isinstance(c.func.value, ast.Attribute) and c.func.value.attr == "decorator_list":
+                    if c.func.attr == "append" and len(c.args) == 1:
+                        rule = "append"
+                    elif c.func.attr == "insert" and len(c.args) == 2 and isinstance(c.args[0], ast.Constant) and c.args[0].value == 0:
+                        rule = "insert0"
+                    else:
+                        rule = "unknown"
+            copies = any(call_name(c) == "copy_location" and len(c.args) == 2 and isinstance(c.args[1], ast.Name) and c.args[1].id == "node" for c in ast.walk(fn))
+            return rule, copies
+
+        d, c1 = deco_rule(find_def(tr, "visit_FunctionDef"))
+        k, c2 = deco_rule(find_def(tr, "visit_ClassDef"))
+        h["defDecorator"], h["classDecorator"], h["copiesLocation"] = d, k, c1 and c2
+        vm = find_def(tr, "visit_Module")
+        if vm is not None:
+            loops = [n for n in vm.body if isinstance(n, ast.For)]
+            if len(loops) == 1:
+                lp = loops[0]
+                body = lp.body
+                ok = len(body) == 1 and isinstance(body[0], ast.If)
+                if ok:
+                    i1 = body[0]
+                    t1 = ast.dump(i1.test)
+                    ok = "ImportFrom" in t1 and "__future__" in t1 and any(isinstance(x, ast.Continue) for x in i1.body)
+                    i2 = i1.orelse[0] if len(i1.orelse) == 1 and isinstance(i1.orelse[0], ast.If) else None
+                    ok = ok and i2 is not None and "Expr" in ast.dump(i2.test) and "Constant" in ast.dump(i2.test) and any(isinstance(x, ast.Continue) for x in i2.body)
+                    if ok:
+                        els = i2.orelse
+                        ins = [c for st in els for c in ast.walk(st) if isinstance(c, ast.Call) and isinstance(c.func, ast.Attribute) and c.func.attr == "insert"]
+                        ok = len(ins) == 1 and isinstance(ins[0].args[0], ast.Name) and ins[0].args[0].id == "i" and "jaxtyping" in ast.dump(ins[0].args[1]) and any(isinstance(x, ast.Break) for x in els)
+                        ok = ok and isinstance(lp.iter, ast.Call) and call_name(lp.iter) == "enumerate" and not lp.orelse
+                if ok:
+                    h["importRule"] = "before-first-non-prologue"
+    fi = find_def(tree, "_JaxtypingFinder", "should_instrument")
+    if fi is not None:
+        tests = [n.test for n in ast.walk(fi) if isinstance(n, ast.If)]
+        if len(tests) == 1 and isinstance(tests[0], ast.BoolOp) and isinstance(tests[0].op, ast.Or) and len(tests[0].values) == 2:
+            a, b = tests[0].values
+            eq = isinstance(a, ast.Compare) and len(a.ops) == 1 and isinstance(a.ops[0], ast.Eq)
+            sw = isinstance(b, ast.Call) and isinstance(b.func, ast.Attribute) and b.func.attr == "startswith" and len(b.args) == 1
+            dotted = sw and isinstance(b.args[0], ast.BinOp) and isinstance(b.args[0].op, ast.Add) and isinstance(b.args[0].right, ast.Constant) and b.args[0].right.value == "."
+            if eq and dotted:
+                h["shouldInstrument"] = "eq_or_dotted_prefix"
+            elif eq and sw:
+                h["shouldInstrument"] = "eq_or_startswith"
+        elif len(tests) == 1 and isinstance(tests[0], ast.Call) and getattr(tests[0].func, "attr", "") == "startswith":
+            h["shouldInstrument"] = "startswith"
+        elif len(tests) == 1 and isinstance(tests[0], ast.Compare):
+            h["shouldInstrument"] = "eq"
+    fs = find_def(tree, "_JaxtypingFinder", "find_spec")
+    if fs is not None:
+        h["onlySourceLoaders"] = any(call_name(c) == "isinstance" and len(c.args) == 2 and "SourceFileLoader" in ast.dump(c.args[1]) and "loader" in ast.dump(c.args[0]) for c in ast.walk(fs)) and \
+            any(isinstance(n, ast.If) and call_name(n.test) == "should_instrument" for n in ast.walk(fs))
+    ih = find_def(tree, "install_import_hook")
+    if ih is not None:
+        h["insertsAtFront"] = any(isinstance(c, ast.Call) and isinstance(c.func, ast.Attribute) and c.func.attr == "insert" and "meta_path" in ast.dump(c.func.value) and isinstance(c.args[0], ast.Constant) and c.args[0].value == 0 for c in ast.walk(ih))
+    un = find_def(tree, "ImportHookManager", "uninstall")
+    ex = find_def(tree, "ImportHookManager", "__exit__")
+    if un is not None and ex is not None:
+        h["uninstallRemoves"] = any(isinstance(c, ast.Call) and isinstance(c.func, ast.Attribute) and c.func.attr == "remove" and "meta_path" in ast.dump(c.func.value) for c in ast.walk(un)) and bool(calls_in([ex], "uninstall"))
+    ld = find_def(tree, "_JaxtypingLoader")
+    if ld is not None:
+        scopes = []
+        for m in ld.body:
+            if isinstance(m, ast.FunctionDef):
+                for w in ast.walk(m):
+                    if isinstance(w, ast.With) and any(call_name(it.context_expr) == "patch" and "cache_from_source" in ast.dump(it.context_expr) for it in w.items):
+                        scopes.append(m.name)
+        if len(scopes) == 1 and scopes[0] in ("get_code", "exec_module"):
+            h["patchScope"] = scopes[0]
+    oc = find_def(tree, "_optimized_cache_from_source")
+    if oc is not None:
+        for c in ast.walk(oc):
+            if isinstance(c, ast.keyword) and c.arg == "optimization" and isinstance(c.value, ast.JoinedStr):
+                parts = c.value.values
+                consts = "".join(p.value for p in parts if isinstance(p, ast.Constant))
+                fmt = [p for p in parts if isinstance(p, ast.FormattedValue)]
+                import re as _re
+                m = _re.fullmatch(r"jaxtyping(\d+)", consts)
+                if m:
+                    h["tagVersion"] = int(m.group(1))
+                h["tagHasChecker"] = len(fmt) == 1 and isinstance(fmt[0].value, ast.Name) and fmt[0].value.id == "typechecker_hash"
+
+
+def render_hook(facts):
+    h = facts["hook"]
+    txt = f"""/- GENERATED by harness/extract.py from {SRC}/_import_hook.py on every run. Do not edit. -/
+namespace JV.Generated
+
+def hookDefDecorator : String := {lean_str(h['defDecorator'])}
+def hookClassDecorator : String := {lean_str(h['classDecorator'])}
+def hookCopiesLocation : Bool := {lean_bool(h['copiesLocation'])}
+def hookImportRule : String := {lean_str(h['importRule'])}
+def hookVisitors : List String := {lean_list([lean_str(v) for v in h['visitors']])}
+def hookShouldInstrument : String := {lean_str(h['shouldInstrument'])}
+def hookInsertsAtFront : Bool := {lean_bool(h['insertsAtFront'])}
+def hookUninstallRemoves : Bool := {lean_bool(h['uninstallRemoves'])}
+def hookOnlySourceLoaders : Bool := {lean_bool(h['onlySourceLoaders'])}
+def cachePatchScope : String := {lean_str(h['patchScope'])}
+def cacheTagHasChecker : Bool := {lean_bool(h['tagHasChecker'])}
+def cacheTagVersion : Nat := {h['tagVersion']}
+
+end JV.Generated
+"""
+    write_if_changed(os.path.join(GEN, "Hook.lean"), txt)
+
+
+EXTRA_EXTRACTORS.append(hook_facts)
+EXTRA_RENDERERS.append(render_hook)
+
+
 if __name__ == "__main__":
     print(json.dumps(run(), indent=1, default=str))
